@@ -343,8 +343,12 @@ static void cbc_scan(world_t *w, int side, int hdr, int cbc, uint64_t entropy_de
 /* ------------------------------------------------------------- explorer */
 /* O_SENDMANY (first operation of a path only): the side sends long_run one-byte records, delivered in bursts of 16: the
  * record sequence number crosses its first carry at 256 (thorough, TLS: also the second at 65536) under one key */
-enum { O_SEND1 = 0, O_SENDBIG, O_SEND0, O_GARBAGE, O_CLOSE, O_USERBUF, O_TIMEOUT, O_SENDMANY, O_NSIDEOPS };
-static const char *oname[] = { "send1", "send16385", "send0", "garbage-in", "closure", "encode-userbuf", "timeout", "send-many" };
+/* O_SEQ_LAST (first operation only): the side's write sequence number is set to its last-but-one value ff..fe - a state
+ * 2^64 (DTLS 2^48) records away, entered directly (white box) - and three one-byte records are sent: the counter must never
+ * wrap into numbers the key has used.  O_RNG_FAILS: the platform entropy source fails from now on (seam), then one byte is
+ * sent: a CBC record without a freshly drawn IV must not be produced. */
+enum { O_SEND1 = 0, O_SENDBIG, O_SEND0, O_GARBAGE, O_CLOSE, O_USERBUF, O_TIMEOUT, O_SENDMANY, O_SEQ_LAST, O_RNG_FAILS, O_NSIDEOPS };
+static const char *oname[] = { "send1", "send16385", "send0", "garbage-in", "closure", "encode-userbuf", "timeout", "send-many", "sequence-number-at-its-end", "entropy-source-fails" };
 static int long_run = 300;
 
 typedef struct {
@@ -423,6 +427,36 @@ static int apply_op(gctx_t *g, int side, int op)
     }
     case O_TIMEOUT:
         rc = world_dtls_timeout(&g->w, side);
+        break;
+    case O_SEQ_LAST:
+    {
+        ssl_t *x = g->w.s[side].ssl;
+        int i;
+        if (!x)
+        {
+            break;
+        }
+        if (ver_is_dtls(pc->ver))
+        {
+            memset(x->rsn, 0xff, 6); x->rsn[5] = 0xfe;
+        }
+        else
+        {
+            memset(x->sec.seq, 0xff, 8); x->sec.seq[7] = 0xfe;
+        }
+        for (i = 0; i < 3; i++)
+        {
+            unsigned char b = (unsigned char) (0x70 + i);
+            rc = world_app_send(&g->w, side, &b, 1);
+            after_action(g, e0);
+            e0 = env_entropy_bytes;
+            world_wire_clear(&g->w, side);   /* (the peer expects the honest count: these records are only looked at by the monitor) */
+        }
+        break;
+    }
+    case O_RNG_FAILS:
+        env_entropy_fail = 1;
+        rc = world_app_send(&g->w, side, (const unsigned char *) "r", 1);
         break;
     case O_SENDMANY:
     {
@@ -504,7 +538,7 @@ static void expand(gctx_t *g)
             {
                 continue;
             }
-            if (op == O_SENDMANY && g->depth != 0)
+            if ((op == O_SENDMANY || op == O_SEQ_LAST) && g->depth != 0)
             {
                 continue;
             }
